@@ -17,6 +17,76 @@ func init() {
 	verifHarnesses["h11_witness"] = h11_witness
 	verifHarnesses["h11e"] = h11e
 	verifHarnesses["h11s"] = h11s
+	verifHarnesses["h11p"] = h11p
+}
+
+// h11p: layout. Every gap between the tokens of two definitions is one or
+// two symbolic white-space bytes (space, tab, CR, LF): the document is
+// accepted and each definition carries the 1-based line and column of its
+// first byte, computed here from the bytes written.
+func h11p() {
+	ws := func() []byte {
+		n := 1 + verifChoice(2)
+		b := verifBytes(n)
+		for _, c := range b {
+			verifAssume(verifB2I(c == ' ')|verifB2I(c == '\t')|verifB2I(c == '\r')|verifB2I(c == '\n') == 1)
+		}
+		return b
+	}
+	var doc []byte
+	line, col := 1, 1
+	put := func(b []byte) {
+		for _, c := range b {
+			doc = append(doc, c)
+			if c == '\n' {
+				line++
+				col = 1
+			} else {
+				col++
+			}
+		}
+	}
+	kind := verifChoice(3)
+	head := [...]string{"const", "typedef", "struct"}[kind]
+	l0, c0 := line, col
+	put([]byte(head))
+	put(ws())
+	switch kind {
+	case 0:
+		put([]byte("i32 x = 1"))
+	case 1:
+		put([]byte("i32 T"))
+	default:
+		put([]byte("S {}"))
+	}
+	put(ws())
+	l1, c1 := line, col
+	put([]byte("const"))
+	put(ws())
+	put([]byte("i32 y = 2"))
+	res, errs := Parse(doc)
+	verifObserveBytes("doc", doc)
+	verifAssert(len(errs) == 0 && res.Program != nil, "valid-document-accepted")
+	verifAssert(len(res.Program.Definitions) == 2, "two-definitions")
+	d0, d1 := res.Program.Definitions[0].Info(), res.Program.Definitions[1].Info()
+	verifAssert(d0.Line == l0, "first-definition-line")
+	verifAssert(d1.Line == l1, "second-definition-line")
+	pos0, pos1 := zzPosOf(res.Program.Definitions[0]), zzPosOf(res.Program.Definitions[1])
+	verifAssert(pos0.Line == l0 && pos0.Column == c0, "first-definition-position")
+	verifAssert(pos1.Line == l1 && pos1.Column == c1, "second-definition-position")
+	verifReached("end")
+}
+
+func zzPosOf(d ast.Definition) ast.Position {
+	switch v := d.(type) {
+	case *ast.Constant:
+		return ast.Position{Line: v.Line, Column: v.Column}
+	case *ast.Typedef:
+		return ast.Position{Line: v.Line, Column: v.Column}
+	case *ast.Struct:
+		return ast.Position{Line: v.Line, Column: v.Column}
+	}
+	return ast.Position{}
 }
 
 // zzRefUnescape is the reference reading of a Thrift literal body, left to
